@@ -20,6 +20,16 @@ fn main() {
         "witness" => { witness::run(); return }
         "c01" => modes::c01(&a),
         "c14" => modes::c14(&a),
+        "c02" => modes::c02(&a),
+        "c03" => modes::c03(&a),
+        "c04" => modes::c04(&a),
+        "c07" => modes::c07(&a),
+        "c08" => modes::c08(&a),
+        "c10" => modes::c10(&a),
+        "c11" => modes::c11(&a),
+        "c12" => modes::c12(&a),
+        "c13" => modes::c13(&a),
+        "c15" => modes::c15(&a),
         _ => { eprintln!("usage: harness <mode> [--seed S] [--n N] [--out DIR] [--shard K] [--thorough]"); std::process::exit(2) }
     };
     cs.write(&a.out, a.shard).expect("write cases");
